@@ -130,6 +130,18 @@ func runFault(s FaultScript, v *vt.V) {
 	if err == nil {
 		desc = r.Descriptor()
 		got, err = io.ReadAll(r)
+		if err != nil {
+			// a consumer that asks again (io.MultiReader, a retry loop) is not told that all is well
+			// after all: once the read has failed it does not turn into a clean end of stream
+			for again := 0; again < 2; again++ {
+				var p [16]byte
+				if n, err2 := r.Read(p[:]); err2 == io.EOF || err2 == nil {
+					r.Close()
+					v.Failf("error-then-clean-eof", "%s of %d bytes, body %s, Docker-Content-Digest %s: the read failed (%v); Read call %d after that returned %d bytes and %v", s.Read, len(data), s.Corrupt, s.Digest, err, again+1, n, err2)
+					return
+				}
+			}
+		}
 		r.Close()
 	}
 	if cor.hit == 0 {
